@@ -60,6 +60,16 @@ def gen_all_slices(g, rng, tier, n):
         t = g.tree(depth_for(rng, tier), ALL_OPS, mode)
         a, b = g.window()
         rev = rng.random() < 0.4 and b is not None
+        if b is None and rng.random() < 0.3:
+            rev = True        # a reverse slice with an open end, [a::-1] / [::-1] (seeded change C03-m14)
+        if rng.random() < 0.04:
+            # aimed (C03-m14): an event open on one side, cut by subtractors that leave a part beyond
+            # the last hole, under a fully open slice in either direction
+            sub = g.leaf("disjoint", None)
+            o = g.off
+            src_ev = [o + rng.choice([0, 1, 2]), None, g.fresh()] if rng.random() < 0.6 else [None, o + g.m - rng.choice([0, 1, 2]), g.fresh()]
+            t = {"op": "sub", "l": {"op": "stored", "evs": [src_ev]}, "r": sub}
+            a, b, rev = None, None, rng.random() < 0.6
         yield dict(tree=t, q=[(a, b, rev)])
 
 
